@@ -311,3 +311,20 @@ Theorem c16_installed_validator_decides : forall p files rb,
   installed_rt_tags p files rb = [] <-> InstalledRoundTrip p files rb.
 Proof. exact installed_validator_decides. Qed.
 Print Assumptions c16_installed_validator_decides.
+
+(* each condition of [sort_envelope] is needed: model witnesses for "./" (the
+   recursion does not end: finding C15-F4), a childless top-level entry and an
+   orphan (C16-F5), a directory named twice (C16-F7), and a non-directory name
+   ending in "/." (written as R:. — no file can be called that) *)
+Theorem c16_sort_envelope_needed :
+  sort_headers [mkHdr "./" true 493 0 0 ""] = OutOfFuel /\
+  sort_headers [mkHdr "dev/" true 493 0 0 ""; mkHdr "usr/" true 493 0 0 ""; mkHdr "usr/bin/" true 493 0 0 ""] =
+    Ok [mkHdr "usr/" true 493 0 0 ""; mkHdr "usr/bin/" true 493 0 0 ""] /\
+  sort_headers [mkHdr "usr/" true 493 0 0 ""; mkHdr "usr/bin/ls" false 420 0 0 ""; mkHdr "usr/lib/" true 493 0 0 ""] =
+    Ok [mkHdr "usr/" true 493 0 0 ""; mkHdr "usr/lib/" true 493 0 0 ""] /\
+  sort_headers [mkHdr "s/" true 493 0 0 ""; mkHdr "s/d/" true 493 0 0 ""; mkHdr "s/d/x" false 420 0 0 ""; mkHdr "s/d/" true 493 0 0 ""] =
+    Ok [mkHdr "s/" true 493 0 0 ""; mkHdr "s/d/" true 493 0 0 ""; mkHdr "s/d/x" false 420 0 0 ""; mkHdr "s/d/" true 493 0 0 ""; mkHdr "s/d/x" false 420 0 0 ""] /\
+  (exists out, sort_headers [mkHdr "a/" true 493 0 0 ""; mkHdr "a/b/" true 493 0 0 ""; mkHdr "a/b/c/." false 420 0 0 ""] = Ok out /\
+     Permutation.Permutation out [mkHdr "a/" true 493 0 0 ""; mkHdr "a/b/" true 493 0 0 ""; mkHdr "a/b/c/." false 420 0 0 ""] /\ governed None out = false).
+Proof. exact sort_envelope_needed. Qed.
+Print Assumptions c16_sort_envelope_needed.
